@@ -6,9 +6,11 @@ import (
 	"encoding/json"
 	"fmt"
 	"os"
+	"os/exec"
 	"regexp"
 	"runtime"
 	"strings"
+	"sync"
 	"sync/atomic"
 	"time"
 
@@ -50,11 +52,80 @@ func main() {
 	// in some processes the very first use of the code under test is made by several
 	// goroutines at once (anything initialised lazily meets its first callers together)
 	if p, ok := preludes[c.Prop]; ok && rc == nil {
+		if os.Getenv("VMON_PRELUDE_ONLY") != "" {
+			// a fresh process started only to make its first calls side by side: report
+			// what it saw on standard output and leave
+			p(c)
+			for _, v := range c.ViolationList() {
+				b, _ := json.Marshal(v)
+				fmt.Printf("PRELUDE-VIOLATION %s\n", b)
+			}
+			fmt.Println("PRELUDE-DONE")
+			os.Exit(0)
+		}
 		p(c)
+		// the window in which lazily initialised state can be caught half-built is a
+		// microsecond at the start of a process: give it more processes
+		freshProcesses(c, c.Pick(24, 200))
 	}
 	selfTest(c)
 	m(c, rc)
 	c.Finish()
+}
+
+// freshProcesses re-runs this program n times with VMON_PRELUDE_ONLY set (same
+// property, own scratch files) and takes over the violations they report.
+func freshProcesses(c *child.Ctx, n int) {
+	done := 0
+	sem := make(chan struct{}, 4)
+	var mu sync.Mutex
+	var wg sync.WaitGroup
+	for i := 0; i < n; i++ {
+		wg.Add(1)
+		sem <- struct{}{}
+		go func(i int) {
+			defer wg.Done()
+			defer func() { <-sem }()
+			var args []string
+			skip := false
+			for _, a := range os.Args[1:] {
+				if skip {
+					skip = false
+					continue
+				}
+				if a == "-out" || a == "-cur" || a == "--out" || a == "--cur" {
+					skip = true
+					continue
+				}
+				if strings.HasPrefix(a, "-out=") || strings.HasPrefix(a, "-cur=") || strings.HasPrefix(a, "--out=") || strings.HasPrefix(a, "--cur=") {
+					continue
+				}
+				args = append(args, a)
+			}
+			args = append(args, "-out", os.DevNull, "-cur", os.DevNull)
+			cmd := exec.Command(os.Args[0], args...)
+			cmd.Env = append(os.Environ(), "VMON_PRELUDE_ONLY=1", fmt.Sprintf("VMON_PRELUDE_INDEX=%d", i))
+			out, err := cmd.CombinedOutput()
+			mu.Lock()
+			defer mu.Unlock()
+			if !strings.Contains(string(out), "PRELUDE-DONE") {
+				// it died: a crash among the first calls of a process
+				c.Violate("crash", fmt.Sprintf("a fresh process whose first calls into the code under test were made side by side ended abnormally (%v):\n%s", err, clipText(string(out))), nil)
+				return
+			}
+			done++
+			for _, ln := range strings.Split(string(out), "\n") {
+				if strings.HasPrefix(ln, "PRELUDE-VIOLATION ") {
+					var v child.Violation
+					if json.Unmarshal([]byte(ln[len("PRELUDE-VIOLATION "):]), &v) == nil {
+						c.Violate(v.Signature, v.Detail, v.Case)
+					}
+				}
+			}
+		}(i)
+	}
+	wg.Wait()
+	c.Count("fresh_processes_with_first_calls_side_by_side", int64(done))
 }
 
 // repoRoot is where the repository under test lives (always /repo for the registered checks).
